@@ -130,6 +130,21 @@ def kind_of(area, new):
     return ("split", dims)
 
 
+def run_continue(sa, case):
+    """the documented way of continuing a finished run: performSpatiallyAdaptiv with the ORIGINAL lmin / lmax arguments
+    and the old container, on the same scheme object (a fresh object cannot be continued: the branch neither sets
+    lmin/lmax/scheme nor the root cell).  max_evaluations=1: re-evaluate all areas, no refinement."""
+    _, _, ErrorCalculator = _imports()
+
+    class Scripted(ErrorCalculator):
+        def calc_error(self, refine_object, norm, volume_weights=None):
+            return 0.0
+
+    with contextlib.redirect_stdout(io.StringIO()):
+        sa.performSpatiallyAdaptiv(case["lmin"], case["lmax"], Scripted(), tol=-1, max_evaluations=1, do_plot=False,
+                                   print_output=False, refinement_container=sa.refinement)
+
+
 def run_round(sa, rnd, case):
     """one refinement round of the public loop body (`refine()` then `evaluate_operation()`), the benefits of the
     round scripted so that exactly the positions `rnd['pos']` are selected"""
@@ -389,6 +404,9 @@ def gen_round(ctx, sa, case):
     r = ctx.rng
     objs = sa.refinement.get_objects()
     n = len(objs)
+    ncont = sum(1 for x in case["rounds"] if x.get("continue"))
+    if int(sa.lmax[0]) > case["lmax"] and ncont < 2 and r.random() < 0.3:
+        return {"continue": True}
     k = r.choice([1, 1, 1, 2, 2, 3]) if n > 1 else 1
     if r.random() < 0.05:
         k = min(n, 6)
@@ -443,6 +461,19 @@ def run_history(ctx, drv, case, rounds=None, nrounds=0, thorough=False):
             rnd = rounds[i]
         i += 1
         case["rounds"].append(rnd)
+        if rnd.get("continue"):
+            # continuation of the finished run; the model's state simply continues (lmax is part of the state)
+            try:
+                run_continue(sa, case)
+            except Exception as e:
+                ctx.violation("exception", dict(tags, where="continue"), dict(case, rounds=list(case["rounds"])),
+                              {"exception": repr(e)[:300]})
+                ok = False
+                break
+            ctx.count("op_continue")
+            ctx.count("op_continue_lmax_grown_by_%d" % min(3, int(sa.lmax[0]) - case["lmax"]))
+            ok = compare_state(ctx, drv, sa, f, dict(case, rounds=list(case["rounds"])), tags, cmp, thorough) and ok
+            continue
         try:
             log = run_round(sa, rnd, case)
         except Exception as e:
@@ -590,6 +621,18 @@ def run(ctx):
             ok, case = run_history(ctx, drv, case, None, 2, thorough)
             ctx.count("btype_stream_single%d_%s" % (int(single), bt))
             ctx.case(case, nontrivial=len(case["rounds"]) > 0)
+    # every run: finished runs in which lmax has grown are continued (performSpatiallyAdaptiv(..., refinement_container=...))
+    # and refined further until lmax has grown three more times, for every coarsening version
+    for ver in (0, 1, 2):
+        for dim in (2, 3):
+            case = {"kind": "history", "dim": dim, "lmin": 1, "lmax": 2, "nrbe": 0, "version": ver, "auto": False, "single": False,
+                    "script": True, "a": [0.0] * dim, "b": [1.0] * dim, "salt": 1, "btype": "float"}
+            last = 2 ** dim - 1
+            rounds = [{"pos": [0], "dec": {}}, {"continue": True}, {"pos": [last], "dec": {}}, {"pos": [last], "dec": {}},
+                      {"continue": True}, {"pos": [last], "dec": {}}]
+            ok, case = run_history(ctx, drv, case, rounds, 0, thorough)
+            ctx.count("continue_stream_v%d_d%d" % (ver, dim))
+            ctx.case(case, nontrivial=True)
     for k in range(n):
         if ctx.time_left(budget) < 0:
             break
